@@ -1,5 +1,6 @@
 import NmVerif.Functional
 import NmVerif.Lemmas.Functional
+import NmVerif.Lemmas.Graph
 /-
   C14 — Functors, currying, composition and extraction are equivalent to direct views.
   Only property statements (+ non-vacuity examples, counterexamples of known findings) live here.
@@ -184,6 +185,35 @@ theorem compile_nonfirst_counterexample :
     v.denote envE = 17 ∧ valuesOf (applyComp ⟨v.compile, []⟩ (v.operandsOf.map envE)) = [11] ∧ v.leftLinear = false := by
   decide
 
+/-! ### compute graph (under the hypothesis that node ids are pairwise distinct — NOT a theorem of the code: ids are
+    `generate_alias` hashes mod 1033 and per-sub-graph counters; checked per explored program by the correspondence run) -/
+
+/-- one uniquely identified node per operand occurrence and per operation, in reading order, leaves labelled with their
+    host array and operations with their inputs -/
+theorem graph_nodes (t : IView) (h : t.allIds.Nodup) :
+    ∃ g, t.graph = some g ∧ g.keys = t.allIds ∧ g.nodes = t.specNodes := by
+  obtain ⟨g, h1, h2, h3, _⟩ := IView.graph_spec t h
+  exact ⟨g, h1, h2, h3⟩
+
+/-- edges exactly from each operation's inputs -/
+theorem graph_edges (t : IView) (h : t.allIds.Nodup) :
+    ∃ g, t.graph = some g ∧ ∀ e, e ∈ g.edges ↔ e ∈ t.specEdges := by
+  obtain ⟨g, h1, _, _, h4⟩ := IView.graph_spec t h
+  exact ⟨g, h1, h4⟩
+
+/-- KNOWN FINDING graph.sibling-subviews-unaliased: add(multiply(x0,x1), multiply(x2,x3)) with the ids the C++ assigns
+    (un-aliased leaves numbered 0,1 in every sub-graph; both multiply views hash to the same id 203, root 593):
+    4 nodes instead of 7 — leaves x2, x3 and the second multiply are lost -/
+theorem graph_collision_counterexample :
+    let t : IView := .node 593 (.cons (.node 203 (.cons (.leaf 0 0) (.cons (.leaf 1 1) .nil)))
+                               (.cons (.node 203 (.cons (.leaf 0 2) (.cons (.leaf 1 3) .nil))) .nil))
+    (t.graph.map (·.keys)) = some [0, 1, 203, 593] ∧ t.specNodes.length = 7 ∧ ¬ t.allIds.Nodup := by
+  decide
+
+/-- the hash behind the ids is not injective: two different id sequences with the same alias -/
+theorem generate_alias_collision : generateAlias [0, 0, 0] = generateAlias [0, 2, 9] ∧ ([0, 0, 0] : List Nat) ≠ [0, 2, 9] := by
+  decide
+
 /-! ### non-vacuity -/
 
 -- a depth-3 left-linear view: neg(add(mul(a,b), c))
@@ -197,5 +227,9 @@ example :
     (applyChunks f [[1], [2, 3]]).map (fun r => match r with | .values v => v | _ => []) = some [123] ∧
     (applyChunks f [[1, 2], [3]]).map (fun r => match r with | .values v => v | _ => []) = some [123] := by decide
 example : (digF (A := Unit) 2).fmap [] [1, 2, 3] = [3, 1, 2] ∧ (buryF (A := Unit) 2).fmap [] [3, 1, 2] = [1, 2, 3] := by decide
+-- tanh(add(multiply(x0,x1),x1)) with the ids the C++ assigns: distinct, 6 nodes, 5 edges
+example :
+    let t : IView := .node 830 (.cons (.node 782 (.cons (.node 203 (.cons (.leaf 0 0) (.cons (.leaf 1 1) .nil))) (.cons (.leaf 205 1) .nil))) .nil)
+    t.allIds.Nodup ∧ (t.graph.map (·.edges)) = some [(0, 203), (1, 203), (203, 782), (205, 782), (782, 830)] := by decide
 
 end NmVerif.Props.C14
